@@ -226,6 +226,7 @@ class Interp:
         ctx = self.ctx
         ctx.solver.push()
         pc_len = len(ctx.pc)
+        q_len = len(ctx.qfacts)
         ctx.assume_log.append([])
         ctx.nofork += 1
         n_obl = len(ctx.obligations)
@@ -241,6 +242,7 @@ class Interp:
             inner = ctx.assume_log.pop()
             ctx.solver.pop()
             del ctx.pc[pc_len:]
+            del ctx.qfacts[q_len:]
             if ok:
                 for z in inner:
                     g = z3.Implies(assumption, z) if assumption is not None else z
@@ -1140,6 +1142,15 @@ class Interp:
                 return self.wrap_bool(self.or_(z3.Not(a), b))
             except Infeasible:
                 return True
+            except PyRaise:
+                # the consequent is ill-defined under the antecedent.  When *assuming* a
+                # verified callee's postcondition this cannot happen in a reachable state
+                # (the callee's own verification rejects clauses that raise), so the clause
+                # carries no information here; when *checking*, it is an error unless the
+                # antecedent is infeasible.
+                if ctx.assuming or not ctx.feasible(a):
+                    return True
+                raise
             except NeedFork:
                 if ctx.branch(a, "implies-antecedent"):
                     return self.wrap_bool(self.truth(self.eval(node.args[1], fr)))
